@@ -43,6 +43,25 @@ func cmdC11(r *RNG, n int, e *Emitter, args []string) {
 				lines[k][len(lines[k])-1] = clip.Point64{X: rr, Y: b}
 			}
 		}
+		if r.Intn(5) == 0 {
+			// the same configuration far from the origin (the clipper works with coordinate differences: nothing may change)
+			mags := []int64{1 << 31, 1 << 40, 1<<53 + 1, 1 << 58, 1<<60 + 100}
+			ox, oy := mags[r.Intn(len(mags))]+r.Range(-1000, 1000), mags[r.Intn(len(mags))]+r.Range(-1000, 1000)
+			if r.Bool() {
+				ox = -ox
+			}
+			if r.Bool() {
+				oy = -oy
+			}
+			l, rr, t, b = l+ox, rr+ox, t+oy, b+oy
+			for k := range lines {
+				for j := range lines[k] {
+					lines[k][j].X += ox
+					lines[k][j].Y += oy
+				}
+			}
+			e.Count("far-from-origin")
+		}
 		rect := clip.NewRect64(l, t, rr, b)
 		in0 := clonePaths(lines)
 		var out clip.Paths64
